@@ -735,10 +735,17 @@ impl Conjunction for BoundedVariantRange {
     type Output = Self;
 
     fn conjunction(self, rhs: Self) -> Self::Output {
-        match NaturalRange::by_bound_with(self.into(), rhs.into(), ops::conjunction) {
-            Variance::Variant(Bounded(range)) => range,
-            _ => unreachable!(),
-        }
+        // An open lower bound is zero and so is the identity (rather than the annihilator) of
+        // the sum of lower bounds. An open upper bound has no limit and annihilates the sum of
+        // upper bounds.
+        let lower = ops::conjunction(self.lower().into_usize(), rhs.lower().into_usize());
+        let upper = self
+            .upper()
+            .into_usize()
+            .zip(rhs.upper().into_usize())
+            .map(|(lhs, rhs)| ops::conjunction(lhs, rhs));
+        BoundedVariantRange::try_from_lower_and_upper(lower, upper)
+            .expect("conjunction of bounded ranges is unbounded or invariant")
     }
 }
 
